@@ -11,7 +11,7 @@ import json, os, re, subprocess, time
 import vlib
 
 PROPS = {
-    "C03": ["FwdAuthentic", "FwdOnce", "FwdComplete", "ReplyAuthentic", "ReplyOnce", "SaltsFresh", "ReplyComplete",
+    "C03": ["FwdToNamed", "FwdAuthentic", "FwdOnce", "FwdComplete", "ReplyAuthentic", "ReplyOnce", "SaltsFresh", "ReplyComplete",
             "CreateOnlyValid"],
     # NoEarlyRemoval belongs to C04 as well: "one stable socket while the association is alive" and "any datagram arriving at
     # that source address from any target is delivered" both fail when something other than the promised timeout (a failed
@@ -31,6 +31,9 @@ ALL_PROPS = sorted({p for v in PROPS.values() for p in v})
 WHAT = {
     "FwdAuthentic": "a target received a datagram that was not an authenticated, allowed client datagram delivered intact "
                     "through the association of its client and key",
+    "FwdToNamed": "a client datagram was delivered to a target OTHER than the one named in its own (authenticated) address header - "
+                  "e.g. to the target of an earlier datagram of the association, another port of the same host or another name of "
+                  "equal length - so the named target did not get it and a target it was never addressed to did",
     "FwdOnce": "a client datagram was forwarded more than once",
     "FwdComplete": "a datagram that authenticates under a configured key (for a known client address: the key of its "
                    "association) and names an allowed destination was not forwarded",
@@ -78,7 +81,7 @@ def exhaustive(ctx, cfgs, label="", workers="auto", timeout=1500):
     return out
 
 
-def gen(ctx, cfg, num, seed=None, depth=400):
+def gen(ctx, cfg, num, seed=None, depth=400, with_result=False):
     r = vlib.tlc(ctx, "UdpNatGen", cfg, simulate=num, depth=depth, seed=seed if seed is not None else ctx.seed,
                  deadlock=False, timeout=600)
     behs, seen = [], set()
@@ -89,7 +92,27 @@ def gen(ctx, cfg, num, seed=None, depth=400):
             behs.append(b)
     if len(behs) < max(3, num // 4):
         raise vlib.Inconclusive("behaviour generation produced only %d behaviours from %s" % (len(behs), cfg))
-    return behs
+    return (behs, r) if with_result else behs
+
+
+# SOCKS address header length per destination token (as HdrLen/GenFam in the spec); used for COVERAGE counting only
+_HDRLEN = {1: 7, 2: 7, 6: 7, 10: 7, 14: 7, 15: 7, 3: 19, 4: 19, 5: 19, 18: 19, 11: 13, 16: 13, 12: 18, 17: 18, 13: 19}
+
+
+def switches(b):
+    """target switches inside one association that behaviour b contains: (client, position >= 3, from, to) where the datagram
+    names another destination than the client's previous one with an address header of the same length"""
+    out, per = [], {}
+    for st in b:
+        if st.get("a") in ("Tick", "Shutdown"):
+            per = {}
+        if st.get("a") != "CDgram":
+            continue
+        l = per.setdefault(st["c"], [])
+        l.append(st["dst"])
+        if len(l) >= 3 and l[-1] != l[-2] and _HDRLEN.get(l[-1]) == _HDRLEN.get(l[-2]):
+            out.append((st["c"], len(l), l[-2], l[-1]))
+    return out
 
 
 def capped_env(extra=None):
@@ -342,7 +365,7 @@ def replay_file(ctx, path, props, cfg=None):
     validate(ctx, tf, cfg, props, "replay (recorded trace) of " + os.path.basename(path))
 
 
-def real_families(ctx, name, n_main, n_def, props, seed_off=0, prom=False, want=(), n_focus=12):
+def real_families(ctx, name, n_main, n_def, props, seed_off=0, prom=False, want=(), n_focus=12, n_switch=0):
     """The two real-socket families every UDP check runs:
       main: validator = loopback + RequirePublicIP, IP-literal destinations (IPv4, IPv6, port 53, eth0, ULA forbidden)
       def : the handler's DEFAULT validator (RequirePublicIP; SetTargetIPValidator not called) with destinations also named
@@ -352,24 +375,39 @@ def real_families(ctx, name, n_main, n_def, props, seed_off=0, prom=False, want=
     # focus: two clients (+ one that only ever names the unsendable destination), one key, destinations {A, port-53 B,
     #        unsendable}: a send that FAILS on a live association or as the very first datagram (the association, its deadline
     #        and its socket must stay / it must still be reclaimed), a DNS query answered by another host first, empty payloads
+    # switch: two clients, each under its own key, no idle periods, destinations in groups of EQUAL address-header length
+    #        (IPv4: A / another port of A's host / another IP; IPv6: two ports of ::1; names: same name other port, another name
+    #        of equal length): >= 3 datagrams in ONE association whose target changes (A,A,B / A,B,A / A,B,B,A ...): the target
+    #        named in THIS datagram's header gets it and nobody else (FwdToNamed, FwdOnce, FwdComplete)
     # The families are independent (own behaviours, own driver processes, own trace validation): they run side by side.
     import concurrent.futures
     driver(ctx)      # build once, before the threads
     fams = [f for f in (("main", "Gen_UdpNatReal.cfg", "UdpNatTraceReal.cfg", n_main, "loopback"),
                         ("def", "Gen_UdpNatRealDef.cfg", "UdpNatTraceRealDef.cfg", n_def, "default"),
-                        ("focus", "Gen_UdpNatRealFocus.cfg", "UdpNatTraceReal.cfg", n_focus, "loopback")) if f[3] > 0]
+                        ("focus", "Gen_UdpNatRealFocus.cfg", "UdpNatTraceReal.cfg", n_focus, "loopback"),
+                        ("switch", "Gen_UdpNatRealSwitch.cfg", "UdpNatTraceRealSw.cfg", n_switch, "loopback")) if f[3] > 0]
 
     def one(f):
         fam, gencfg, tracecfg, n, validator = f
-        behs = gen(ctx, gencfg, n, seed=ctx.seed + seed_off + {"main": 0, "def": 500009, "focus": 900001}[fam])
+        behs, gr = gen(ctx, gencfg, n, seed=ctx.seed + seed_off + {"main": 0, "def": 500009, "focus": 900001, "switch": 700001}[fam], with_result=True)
+        if fam == "switch":
+            # the model counts the switches of every finished behaviour (DumpSw in UdpNatGen); a family without any is vacuous
+            nsw = sum(int(m.group(1)) for m in (re.match(r'^<<"SWITCHES", (\d+)>>$', ln.strip()) for ln in gr.prints) if m)
+            sw = [x for b in behs for x in switches(b)]
+            ctx.cov["target_switches_generated_by_model"] = ctx.cov.get("target_switches_generated_by_model", 0) + nsw
+            ctx.cov["target_switches_replayed"] = ctx.cov.get("target_switches_replayed", 0) + len(sw)
+            ctx.cov["target_switch_pairs"] = sorted({"%d->%d" % (x[2], x[3]) for x in sw})
+            if nsw == 0 or len(sw) < 3:
+                raise vlib.Inconclusive("the target-switch family contains %d/%d switches inside an association" % (nsw, len(sw)))
         trace, sums = run_real(ctx, behs, "%s-%s" % (name, fam), prom=prom, validator=validator, procs=min(8, len(behs)))
-        desc = "real sockets, %s validator%s" % ({"main": "loopback+public", "focus": "loopback+public (focused family: failing sends, DNS + other host)"}.get(
+        desc = "real sockets, %s validator%s" % ({"main": "loopback+public", "focus": "loopback+public (focused family: failing sends, DNS + other host)",
+                                                   "switch": "loopback+public (target switches inside one association: same-length address headers, other port / IP / name)"}.get(
             fam, "default (RequirePublicIP), host-name destinations"), ", Prometheus collectors" if prom else "")
         validate(ctx, trace, tracecfg, props, desc, behs)
         summary_violations(ctx, sums, behs, desc, set(want))
         return (fam, behs, trace, sums)
 
-    with concurrent.futures.ThreadPoolExecutor(max_workers=3) as ex:
+    with concurrent.futures.ThreadPoolExecutor(max_workers=4) as ex:
         futs = [ex.submit(one, f) for f in fams]
         res, errs = [], []
         for fu in futs:
